@@ -164,7 +164,7 @@ def work(n_fmmu, res):
             w.close()
             ops = [("map", False), ("map", True)] + \
                 [("unmap", j) for j in range(nlive)]
-            if work.faults and sum(1 for o in hist if len(o) > 2) < 1:
+            if sum(1 for o in hist if len(o) > 2) < work.faults:
                 ops += [("map", False, True), ("map", True, True)] + \
                     [("unmap", j, True) for j in range(nlive)]
             for op in ops:
@@ -215,8 +215,8 @@ def work(n_fmmu, res):
 
 
 def run(ctx):
-    work.depth = 5 if ctx.quick else 6
-    work.faults = True
+    work.depth = 5 if ctx.quick else 7
+    work.faults = 1 if ctx.quick else 2
     res = core.pmap(ctx, work, [1, 2, 3, 4], chunk=1)
     res.cov["traces_validated_against_impl"] = res.cov.get("evaluations", 0)
     res.cov["depth"] = work.depth
